@@ -10,6 +10,7 @@
 -/
 import RotoV.Lemmas.Layout
 import RotoV.Lemmas.LayoutPath
+import RotoV.Lemmas.LayoutClone
 
 namespace RotoV.C02
 open RotoV RotoV.Layout RotoV.LayoutStd RotoV.Gen.LayoutGen
@@ -175,5 +176,63 @@ example :
     locate r [.field 1, .variantField 0 0] 0 = .ok (some (16, .leaf .int 8 8)) ∧
     locate r [.field 2] 0 = .ok (some (32, .leaf .int 4 4)) :=
   ⟨.field_ne (by decide), rfl, rfl⟩
+
+/-- **T5 `clone_independent`** — for every inhabited type tree, running the
+    generated clone function (`cloneTy`: `call_clone_function` +
+    `generate_clone_body_*`, field by field and variant by variant as the
+    lowerer emits them) from `src` into a disjoint slot `dst`:
+    1. the destination decodes to the same value as the source (tag, the
+       selected variant's fields, every leaf — whatever the padding held);
+    2. no byte outside the destination changes (the source is intact);
+    3. afterwards, overwriting ANY component of one copy (any valid path, any
+       bytes of the component's size) leaves the value decoded from the other
+       copy unchanged — in both directions. -/
+theorem clone_independent (t : Ty) (L : Layout) (hL : layoutOf t = some L) (src dst : Nat) (m : Mem)
+    (hd : src + L.size ≤ dst ∨ dst + L.size ≤ src) :
+    decode (cloneTy t src dst m) t dst = decode m t src ∧
+    (∀ x, (x < dst ∨ dst + L.size ≤ x) → cloneTy t src dst m x = m x) ∧
+    (∀ (p : List Proj) (tp : Ty), PathOk t p tp → ∀ (bs : List Nat),
+      ∃ op lp, locate t p 0 = .ok (some (op, tp)) ∧ layoutOf tp = some lp ∧
+        (bs.length = lp.size →
+          decode ((cloneTy t src dst m).write (dst + op) bs) t src = decode m t src ∧
+          decode ((cloneTy t src dst m).write (src + op) bs) t dst = decode m t src)) := by
+  have hdec := cloneTy_decode t L hL src dst m hd
+  have hfr := cloneTy_frame t L hL src dst m
+  refine ⟨hdec, hfr, ?_⟩
+  intro p tp hp bs
+  obtain ⟨op, lp, a1, a2, _, a4⟩ := locate_ok t p tp hp L hL 0
+  refine ⟨op, lp, a1, a2, ?_⟩
+  intro hlen
+  constructor
+  · apply decode_congr _ m t L hL src src
+    intro i hi
+    rw [Mem.write_outside _ _ _ _ (by omega)]
+    exact hfr _ (by omega)
+  · rw [← hdec]
+    apply decode_congr _ _ t L hL dst dst
+    intro i hi
+    exact Mem.write_outside _ _ _ _ (by omega)
+
+/-- **T5 (lists)** — the clone of a `List` is the SAME handle: the bytes of the
+    handle (the `Arc` pointer to the shared storage) are reproduced verbatim,
+    so `push` / `swap` through either copy act on the one shared storage
+    (C15's list model) and are visible through both. -/
+theorem clone_list_same_handle (s a src dst : Nat) (m : Mem) :
+    (cloneTy (.leaf .list s a) src dst m).read dst s = m.read src s := by
+  simp only [cloneTy, Mem.copy]
+  have := Mem.read_write_same m dst (m.read src s)
+  simpa [Mem.read_length] using this
+
+/-- non-vacuity of T5: an enum value `V1(0x2A)` of `enum { V0, V1(u8) }`
+    inside a record with a `String`-like clone leaf is decoded, cloned, and the
+    clone decodes to the same value -/
+example :
+    let t := Ty.record (.cons (.leaf .string 2 1) (.cons (.enum (.cons .nil (.cons (.cons (.leaf .int 1 1) .nil) .nil))) .nil))
+    let m : Mem := fun x => if x = 2 then 1 else if x = 3 then 42 else 7
+    needsClone t = true ∧ layoutOf t = some { size := 4, align := 1 } ∧
+    decode m t 0 = some (.rec_ (.cons (.leaf .string [7, 7]) (.cons (.enm 1 (.cons (.leaf .int [42]) .nil)) .nil))) ∧
+    decode (cloneTy t 0 10 m) t 10 = decode m t 0 := by
+  refine ⟨rfl, rfl, rfl, ?_⟩
+  exact (clone_independent _ _ rfl 0 10 _ (by decide)).1
 
 end RotoV.C02
